@@ -14,7 +14,7 @@ VARIABLES rc, f1, f2, d1, d2, stage
 vars == <<rc, f1, f2, d1, d2, stage>>
 RuleNames == <<(<<115,101,108>>), (<<102,105,108,116,101,114>>), (<<95,120>>)>>      \* sel filter _x
 FilterNames == <<(<<115,101,108>>), (<<49,120>>), (<<97,120>>)>>                      \* sel 1x ax   (both filters use the same names)
-Draws == {<<95,102,105,108,116,95,97,98>>, <<95,102,105,108,116,95,99,100>>}          \* _filt_ab  _filt_cd
+Draws == {<<95,102,105,108,116,95,97,98,97,98,97,98,97,98,97,98>>, <<95,102,105,108,116,95,99,100,99,100,99,100,99,100,99,100>>}          \* _filt_ababababab  _filt_cdcdcdcdcd
 RuleConds == {CId(RuleNames[1]), CSel("all", S_them), CSel("1", <<95,42>>), CBin("cand", CId(RuleNames[1]), CNot(CId(RuleNames[2])))}
 FilterConds == {CNot(CId(FilterNames[1])), CSel("1", S_them), CSel("any", <<42,120>>), CBin("cand", CId(FilterNames[3]), CNot(CId(FilterNames[2])))}
 nr == Len(RuleNames)
